@@ -39,7 +39,7 @@ LEVEL_NOTE = "Trusted: jsonschema 4.26; settings are restored in a finally block
 
 @st.composite
 def strategy_(draw, tier):
-    cfg = {"max_depth": 3 if tier == "quick" else 4, "std": True, "lit_in_union": False, "unsup": False}
+    cfg = {"max_depth": 3 if tier == "quick" else 4, "std": True, "methods": True, "lit_in_union": False, "unsup": False}
     prog = draw(gen.programs(cfg))
     opts = {"aliaser": pick(draw, ["id", "id", "camel", "pfx"]), "exclude_none": chance(draw, 0.4),
             "exclude_defaults": chance(draw, 0.4), "additional_properties": chance(draw, 0.3)}
@@ -88,9 +88,11 @@ def _evaluate(case, ctx, b, prog, opts):
     except Exception as e:
         ctx.count()
         import re
-        ctx.violation({"kind": "schema_generation_crash", "exc": type(e).__name__, "msg": re.sub(r"[A-Za-z_]*\d+[A-Za-z_0-9]*", "N", str(e))[:60]},
+        ctx.violation({"kind": "schema_generation_crash", "exc": type(e).__name__, "msg": re.sub(r"[A-Za-z_]*\d+[A-Za-z_0-9]*", "N", str(e))[:60],
+                       **tdcase.schema_features(prog)},
                       {"prog": prog, "opts": opts, "values": []}, repr(e))
         return
+    explicit_unique = '"unique": true' in json.dumps(prog)
     bad = jsoracle.check_schema(schema)
     if bad:
         ctx.count()
@@ -139,6 +141,12 @@ def _evaluate(case, ctx, b, prog, opts):
         ok = v.is_valid(out)
         if not ok:
             kwd = jsoracle.first_error_keyword(v, out)
+            if kwd == "uniqueItems" and explicit_unique and (opts.get("exclude_none") or opts.get("exclude_defaults")):
+                # `unique` constrains the serialized items; whether two distinct values have one image depends on the
+                # omission options (an object whose fields are all omitted and an empty mapping both give {}):
+                # such a value violates its own constraint, it is not a "value of T" for these settings
+                ctx.h("value_outside_unique_constraint_under_omission")
+                continue
             sig = {"kind": "output_invalid", "keyword": kwd, "root": tdcase.node_sig(prog, root), "flatten": flatten}
             if flatten_skippable:
                 sig["flatten_skippable"] = True
